@@ -36,7 +36,7 @@ impl Future for LeafF {
     fn poll(self: Pin<&mut Self>, cx: &mut Context<'_>) -> Poll<Val> {
         match world::leaf_poll(self.0 .0, cx) {
             LeafOut::Pending => Poll::Pending,
-            LeafOut::Yield(t, _) => Poll::Ready(Val::Tok(t)),
+            LeafOut::Yield(t, _) => Poll::Ready(t),
             LeafOut::End => unreachable!(),
         }
     }
@@ -47,8 +47,8 @@ impl Future for LeafR {
     fn poll(self: Pin<&mut Self>, cx: &mut Context<'_>) -> Poll<Self::Output> {
         match world::leaf_poll(self.0 .0, cx) {
             LeafOut::Pending => Poll::Pending,
-            LeafOut::Yield(t, true) => Poll::Ready(Ok(Val::Tok(t))),
-            LeafOut::Yield(t, false) => Poll::Ready(Err(Val::Tok(t))),
+            LeafOut::Yield(t, true) => Poll::Ready(Ok(t)),
+            LeafOut::Yield(t, false) => Poll::Ready(Err(t)),
             LeafOut::End => unreachable!(),
         }
     }
@@ -59,7 +59,7 @@ impl Stream for LeafS {
     fn poll_next(self: Pin<&mut Self>, cx: &mut Context<'_>) -> Poll<Option<Val>> {
         match world::leaf_poll(self.0 .0, cx) {
             LeafOut::Pending => Poll::Pending,
-            LeafOut::Yield(t, _) => Poll::Ready(Some(Val::Tok(t))),
+            LeafOut::Yield(t, _) => Poll::Ready(Some(t)),
             LeafOut::End => Poll::Ready(None),
         }
     }
@@ -88,6 +88,44 @@ pub struct ProbeR {
 pub struct ProbeS {
     pub inner: Option<BoxS>,
     pub mark: DropMark,
+}
+
+// Hardening: a combinator bug may poll a child after it dropped it in place.
+// Leave `None` behind so that such a poll is *recorded* (by the world) instead
+// of following a dangling Box.
+impl Drop for ProbeF {
+    fn drop(&mut self) {
+        self.inner = None;
+    }
+}
+impl Drop for ProbeR {
+    fn drop(&mut self) {
+        self.inner = None;
+    }
+}
+impl Drop for ProbeS {
+    fn drop(&mut self) {
+        self.inner = None;
+    }
+}
+
+pub struct WrapF {
+    pub id: NodeId,
+    pub inner: Option<BoxF>,
+}
+pub struct WrapR {
+    pub id: NodeId,
+    pub inner: Option<BoxR>,
+}
+impl Drop for WrapF {
+    fn drop(&mut self) {
+        self.inner = None;
+    }
+}
+impl Drop for WrapR {
+    fn drop(&mut self) {
+        self.inner = None;
+    }
 }
 
 impl std::fmt::Debug for ProbeF {
@@ -171,13 +209,13 @@ pub enum FNode {
     Leaf(LeafF),
     Inner(ProbeF),
     /// a probed Result-future seen as a plain future (harness-side conversion)
-    Wrapped(NodeId, BoxF),
+    Wrapped(WrapF),
 }
 pub enum RNode {
     Leaf(LeafR),
     Inner(ProbeR),
     /// a probed plain future seen as Ok(..) (harness-side conversion)
-    Wrapped(NodeId, BoxR),
+    Wrapped(WrapR),
 }
 impl std::fmt::Debug for FNode {
     fn fmt(&self, f: &mut std::fmt::Formatter<'_>) -> std::fmt::Result {
@@ -201,7 +239,10 @@ impl Future for FNode {
         match self.get_mut() {
             FNode::Leaf(l) => Pin::new(l).poll(cx),
             FNode::Inner(p) => Pin::new(p).poll(cx),
-            FNode::Wrapped(_, b) => b.as_mut().poll(cx),
+            FNode::Wrapped(b) => match b.inner.as_mut() {
+                Some(f) => f.as_mut().poll(cx),
+                None => Poll::Pending,
+            },
         }
     }
 }
@@ -211,7 +252,10 @@ impl Future for RNode {
         match self.get_mut() {
             RNode::Leaf(l) => Pin::new(l).poll(cx),
             RNode::Inner(p) => Pin::new(p).poll(cx),
-            RNode::Wrapped(_, b) => b.as_mut().poll(cx),
+            RNode::Wrapped(b) => match b.inner.as_mut() {
+                Some(f) => f.as_mut().poll(cx),
+                None => Poll::Pending,
+            },
         }
     }
 }
@@ -230,7 +274,7 @@ impl FNode {
         match self {
             FNode::Leaf(l) => l.0 .0,
             FNode::Inner(p) => p.mark.0,
-            FNode::Wrapped(id, _) => *id,
+            FNode::Wrapped(b) => b.id,
         }
     }
 }
